@@ -970,7 +970,12 @@ pub fn replay(ctx: &RunCtx, scenario: &Value) -> Result<Vec<Violation>, String> 
     // every prefix state is judged again
     for k in 0..=history.len() {
         match rebuild(&world, &root, &ops_for, &history[..k]) {
-            Ok(state) => judge_state(ctx, &world, &state, root_name, &history[..k], &names, &mut report),
+            Ok(state) => {
+                if std::env::var("VERIF_DBG").is_ok() {
+                    eprintln!("DBG step {k}: {}", canonical(&state));
+                }
+                judge_state(ctx, &world, &state, root_name, &history[..k], &names, &mut report)
+            }
             Err(p) => report.violation(Violation::new(format!("I7:panic@{}", panic_site(&p)), p, scenario.clone())),
         }
     }
